@@ -214,7 +214,7 @@ func (x *Exec) builtin(env *evalEnv, n *ast.CallExpr, name string) []Val {
 			if !env.spec {
 				x.oblige(env, "bounds", n.Pos(), "(>= "+ln.S+" 0)", "make: non-negative length")
 			}
-			arr := fmt.Sprintf("((as const (Array Int %s)) %s)", x.ctx.Sort(u.Elem()), x.ctx.Zero(u.Elem()))
+			arr := x.ctx.constArr("Int", x.ctx.Sort(u.Elem()), x.ctx.Zero(u.Elem()))
 			return []Val{{x.ctx.mkSlice(t, arr, ln.S, "false"), t}}
 		case *types.Map:
 			return []Val{{x.ctx.Zero(t), t}}
@@ -336,10 +336,14 @@ func (x *Exec) callFunc(env *evalEnv, n *ast.CallExpr, fn *types.Func, recvExpr 
 		recv = &r
 	}
 	var args []Val
-	if len(n.Args) == 1 && sig.Params().Len() > 1 {
-		if c, ok := n.Args[0].(*ast.CallExpr); ok {
-			args = x.call(env, c)
+	isTuple := false
+	if len(n.Args) == 1 && sig.Params().Len() > 1 && env.info != nil {
+		if tv, ok := env.info.Types[n.Args[0]]; ok {
+			_, isTuple = tv.Type.(*types.Tuple)
 		}
+	}
+	if isTuple {
+		args = x.call(env, n.Args[0].(*ast.CallExpr))
 	} else {
 		for i, a := range n.Args {
 			var pt types.Type
@@ -347,9 +351,27 @@ func (x *Exec) callFunc(env *evalEnv, n *ast.CallExpr, fn *types.Func, recvExpr 
 				pt = sig.Params().At(i).Type()
 			}
 			if sig.Variadic() && i >= sig.Params().Len()-1 {
-				x.fail(n.Pos(), "UNSUPPORTED variadic call to %s", fn.Name())
+				break
 			}
 			args = append(args, x.exprAs(env, a, pt))
+		}
+		if sig.Variadic() {
+			// pack the variadic arguments into a slice
+			k := sig.Params().Len() - 1
+			vt := sig.Params().At(k).Type()
+			st := vt.Underlying().(*types.Slice)
+			if n.Ellipsis.IsValid() {
+				args = append(args, x.exprAs(env, n.Args[k], vt))
+			} else if len(n.Args) <= k {
+				args = append(args, Val{x.ctx.Zero(vt), vt})
+			} else {
+				arr := x.ctx.constArr("Int", x.ctx.Sort(st.Elem()), x.ctx.Zero(st.Elem()))
+				for j, a := range n.Args[k:] {
+					v := x.exprAs(env, a, st.Elem())
+					arr = fmt.Sprintf("(store %s %d %s)", arr, j, v.S)
+				}
+				args = append(args, Val{x.ctx.mkSlice(vt, arr, fmt.Sprint(len(n.Args)-k), "false"), vt})
+			}
 		}
 	}
 	cu := x.v.byObj[fn]
@@ -359,8 +381,8 @@ func (x *Exec) callFunc(env *evalEnv, n *ast.CallExpr, fn *types.Func, recvExpr 
 	if con := x.v.contractOf(cu); con != nil && !con.Inline {
 		return x.applyContract(env, n, cu, con, recv, args)
 	}
-	if cu.Decl.Body == nil {
-		// body-less spec function used in code? treat as uninterpreted
+	if cu.Decl.Body == nil || isSpecStub(cu.Decl) {
+		// spec function without definition used in code: uninterpreted
 		return []Val{x.specFuncCall(env, n, fn)}
 	}
 	if x.inlining[fn] || x.depth > 8 {
@@ -552,6 +574,10 @@ func (x *Exec) applyContract(env *evalEnv, n *ast.CallExpr, cu *FuncUnit, con *C
 			x.havocVar(x.st, it.global)
 		case it.whole:
 			x.st.heap[it.field] = x.ctx.Fresh(x.heapName(it.field), fmt.Sprintf("(Array Int %s)", x.ctx.Sort(it.field.Type())))
+		case it.ghost != "":
+			if old, ok := x.st.ghost[it.ghost]; ok {
+				x.st.ghost[it.ghost] = Val{x.ctx.Fresh(it.ghost, "Int"), old.Ty}
+			}
 		case it.deref != nil:
 			sv := x.st
 			x.st = pre
@@ -706,6 +732,12 @@ func (x *Exec) libCall(env *evalEnv, n *ast.CallExpr, fn *types.Func, full strin
 		x.ctx.decl("fun:atoi", "(declare-fun atoi (Str) Int)")
 		e := x.ctx.Fresh("err", "Iface")
 		return []Val{{"(atoi " + a[0].S + ")", tInt}, {e, sig.Results().At(1).Type()}}
+	case "unicode/utf8.DecodeRuneInString":
+		a := x.evalArgs(env, n)
+		x.st.assume("(>= (runeW " + a[0].S + " 0) 0)")
+		x.st.assume("(=> (> (strlen " + a[0].S + ") 0) (and (>= (runeW " + a[0].S + " 0) 1) (<= (runeW " + a[0].S + " 0) (strlen " + a[0].S + "))))")
+		x.trustedUsed["utf8.DecodeRuneInString (assumed: returns the first rune and a width in 1..len for a non-empty string)"] = true
+		return []Val{{"(runeAt " + a[0].S + " 0)", types.Typ[types.Rune]}, {"(runeW " + a[0].S + " 0)", tInt}}
 	case "sort.SliceStable", "sort.Slice":
 		return x.sortModel(env, n)
 	}
